@@ -1,6 +1,6 @@
 (* C15 — Write tokens are bound to the requester IP and expire. Statements only. *)
 From MLV Require Import gen.Params model.Bytes model.Crc32c model.Sha1 model.Id model.Node model.BSearch model.Closest model.RTable
-  model.Lru model.Tokens model.Server proofs.ServerProofs proofs.TokenProofs proofs.TokenForge.
+  model.Lru model.Tokens model.Server proofs.ServerProofs proofs.TokenProofs proofs.TokenForge proofs.ServerIndep.
 Open Scope N_scope.
 
 Example C15_rotation_interval_is_5_minutes : TOKEN_ROTATE_INTERVAL = 300000%Z.
@@ -72,6 +72,15 @@ Example C15_F26_witness :
   tok_validate t 0x05060709 tok = false /\ bytes_eqb forged tok = false /\ tok_validate t 0x05060709 forged = true.
 Proof. vm_compute. repeat split. Qed.
 
+(* a re-key (the node confirms its public address and takes the BEP42-valid id: both routing tables are rebuilt under the
+   new id) leaves every token as valid as it was: what a request does to the stores, to the token secrets and to the random
+   tape does not depend on the routing tables the answer is built from *)
+Theorem C15_state_does_not_depend_on_the_node_id : forall verify s rt srt rt' srt' allow now sys tape ip port rq q,
+  snd (fst (server_step verify s rt srt allow now sys tape ip port rq q)) = snd (fst (server_step verify s rt' srt' allow now sys tape ip port rq q))
+  /\ snd (server_step verify s rt srt allow now sys tape ip port rq q) = snd (server_step verify s rt' srt' allow now sys tape ip port rq q).
+Proof. exact MLV.proofs.ServerIndep.step_state_indep_of_tables. Qed.
+
+Print Assumptions C15_state_does_not_depend_on_the_node_id.
 Print Assumptions C15_rotation_interval_is_5_minutes.
 Print Assumptions C15_token_injective_in_ip.
 Print Assumptions C15_token_bound_to_ip.
